@@ -3,7 +3,7 @@
 import json, os
 HERE = os.path.dirname(os.path.dirname(os.path.abspath(__file__)))
 BASE_OFF = ("cd /repo && rm -rf .hypothesis && env -u T4_GEOM_CONVERT_VERIF /venv/bin/python -m pytest -ra -q "
-            "-p no:cacheprovider --timeout=900 --continue-on-collection-errors")
+            "-p no:cacheprovider --timeout=900 --continue-on-collection-errors --hypothesis-seed=0")
 TRUST = ("TLC; the reading of MCNP/TRIPOLI-4 semantics written down in DESIGN.md section 4; the PEG parser shim "
          "(harness/vt4/shim.py) standing in for TatSu; the .t4 tokenizer and numeric SURF evaluator "
          "(harness/vt4/t4file.py); the concretiser that spells abstract decks as MCNP text")
